@@ -336,6 +336,8 @@ def run_esc_matrix(ctx, everycut_one_in):
         if ct not in built:
             ctx.count('esc-matrix:not-built')
             continue
+        if everycut_one_in > 1 and i % 2 == 1 and kind in ('genuine', 'not-a-triple', 'unicode-digit'):
+            continue      # quick tier: these three kinds are parsed back for every second entry only (all are built and compared)
         s = [ct, successor] if (i % 3 == 0 and successor in built) else [ct]
         trailer = TRAILERS[i % len(TRAILERS)]
         modes = ['whole', 'bytes', 'lines', 'random'] if everycut_one_in == 1 else ['whole', 'random', 'bytes' if i % 2 else 'lines']
@@ -743,7 +745,7 @@ def run_orders(ctx, n_random, everycut_one_in):
             good_keys.append(key)
             s = [key, successor] if (i + k) % 2 == 0 else [key]
             last = (k + 1 == len(sends))
-            jobs += seg_jobs(rng, s, built, TRAILERS[(i + k) % len(TRAILERS)], ['whole', 'bytes', 'random'] if last and i % 3 == 0 else ['whole', 'random'],
+            jobs += seg_jobs(rng, s, built, TRAILERS[(i + k) % len(TRAILERS)], ['whole', 'bytes', 'random'] if last and i % 3 == 0 else ['whole', 'random'] if last else ['whole' if (i + k) % 2 else 'random'],
                              last and i % everycut_one_in == 0)
         if stream_ok and good_keys and any(f for (_, _, _, _, _, f, _) in sends):
             # a write failed on this IO: what the peer reads is the IO's whole send buffer -- exactly the writes that succeeded
@@ -1184,8 +1186,8 @@ def run(ctx):
     stages = [
         ('classes', lambda: run_classes(ctx)),
         ('esc-matrix', lambda: run_esc_matrix(ctx, 32 if ctx.quick else 1)),
-        ('peer-esc', lambda: run_peer_esc(ctx, 500 if ctx.quick else 20000)),
-        ('orders', lambda: run_orders(ctx, 1500 if ctx.quick else 12000, 16 if ctx.quick else 4)),
+        ('peer-esc', lambda: run_peer_esc(ctx, 300 if ctx.quick else 20000)),
+        ('orders', lambda: run_orders(ctx, 1000 if ctx.quick else 12000, 16 if ctx.quick else 4)),
         ('unicode-codes', lambda: run_unicode_codes(ctx)),
         ('continuation', lambda: run_continuation(ctx, 3 if ctx.quick else 5)),
         ('sizes', lambda: run_sizes(ctx, [1000, 4095, 4096, 4097, 5000, 8192] if ctx.quick else [1000, 4095, 4096, 4097, 5000, 8192, 16384, 65536], [16384, 65536] if ctx.quick else [], not ctx.quick)),
